@@ -13,6 +13,7 @@ import Driver.Term
 import Driver.Walk
 import Driver.Bind
 import Driver.Matcher
+import Driver.Preview
 /-
 fzfmodel: reads protocol lines `<area> <op> <args>... => <impl answer>` on stdin and
 prints, per line, `EQ|NE PASS|FAIL|NA | model=<answer> | <reason>`.
@@ -35,6 +36,7 @@ def dispatch (ctx : Driver.Algo.Ctx) (area op : String) (args impl : List String
   | "walk" => Driver.Walk.run op args impl
   | "bind" => Driver.Bind.run op args impl
   | "matcher" => Driver.Matcher.run ctx op args impl
+  | "preview" => Driver.Preview.run op args impl
   | _ => { model := "bad-area" }
 
 def processLine (ctx : Driver.Algo.Ctx) (line : String) : String :=
